@@ -722,7 +722,14 @@ def ruletype_guards(meta, adt):
             leaves = hirq.tail_leaves(b)
             rets = [x["e"] for x in walk(b) if kind(x) == "Ret" and x.get("e") is not None]
             vals = [peel(v) for v in leaves + rets]
-            return bool(vals) and all(kind(v) == "Path" and v.get("res") == "local" for v in vals)
+
+            def unchanged(v):
+                if kind(v) == "Path" and v.get("res") == "local":
+                    return True
+                # `Rule { name, ty, expr }`: the pieces put back together as they were taken apart
+                return kind(v) == "Struct" and bool(v.get("fields")) and all(
+                    kind(peel(f["e"])) == "Path" and peel(f["e"]).get("res") == "local" for f in v["fields"])
+            return bool(vals) and all(unchanged(v) for v in vals)
         conds = []
         for x in walk(fn["body"]):
             if kind(x) == "If":
@@ -771,6 +778,8 @@ def accum(rep, meta, sfx):
                 vp = peel(v) if v is not None else None
                 if vp is not None and kind(vp) == "Path" and vp.get("path") == "core::option::Option::None":
                     continue
+                if vp is not None and kind(vp) == "Call" and "from_residual" in str(callee(vp)):
+                    continue      # `expr?` bailing out with None / Err: no result is produced on this path
                 used = False
                 for e in ev:
                     if e.kind in ("call", "struct", "closure", "tail", "ret", "let"):
